@@ -96,6 +96,12 @@ def call_stmt(self: Interp, call, st, bind):
 
 
 def x_Assign(self, s, st):
+    if isinstance(s.value, ast.IfExp) and any(isinstance(n, ast.Call) for n in ast.walk(s.value)):
+        # x = a if c else b  ==  if c: x = a  else: x = b   (lets a raising call in a branch fork properly)
+        def mk(v):
+            return ast.copy_location(ast.Assign(targets=s.targets, value=v, lineno=s.lineno), s)
+        node = ast.copy_location(ast.If(test=s.value.test, body=[mk(s.value.body)], orelse=[mk(s.value.orelse)]), s)
+        return self.x_If(node, st)
     if isinstance(s.value, ast.Call):
         def bind(s2, val):
             for t in s.targets:
@@ -195,10 +201,28 @@ def assign(self: Interp, target, val, st: State):
                     return self.inline_setter(base, sr, val, st)
                 if self.repo.find_property(base.cls, attr) is not None:
                     raise Unsupported(f"assignment to read-only property {attr}")
+            if isinstance(val, Ref) and val.what == "arr":
+                cell = st.heap[val.rid]
+                if cell.kind == "list" and cell.etype == "any" and self.concrete_int(cell.shape[0]) == 0:
+                    # an empty list literal stored into a typed field: its (absent) elements get the declared type,
+                    # so that specifications may mention field[i] under a guard that is false for the empty list
+                    for c_ in self.repo.mro(base.cls) or [base.cls]:
+                        spec = self.reg["classes"].get(c_)
+                        t = spec.fields.get(attr) if spec else None
+                        if t and t.startswith("list["):
+                            dummy = fresh("seq[" + t[5:-1] + "]", attr + "#none", st, self)
+                            st.heap[val.rid] = Arr((0,), dummy.elem, kind="list", etype=t[5:-1])
+                            break
             st.heap[base.oid][attr] = val
             return
         if isinstance(base, Opaque):
-            raise Unsupported(f"store into attribute {target.attr} of an opaque object")
+            # store into a field of a foreign object: recorded as an override of the uninterpreted field function
+            ov = dict(st.heap.get("$opq", {}))
+            lst = list(ov.get(target.attr, []))
+            lst.append((base.term, val))
+            ov[target.attr] = lst
+            st.heap["$opq"] = ov
+            return
         if hasattr(base, "__class__") and base.__class__.__name__ == "GhostNS":
             st.ghost[target.attr] = val
             return
